@@ -131,6 +131,37 @@ _EXT_RETURNS = {"re.sub": "str", "re.escape": "str", "json.dumps": "str", "textw
                 "os.getcwd": "str", "builtins.repr": "str", "builtins.chr": "str", "builtins.hex": "str"}
 
 
+def _odigest(v, depth=3) -> str:
+    """what a value was computed from, as text (tags of the operands, recursively): two results of the same call site with
+    different operands differ here although their site-based tags coincide"""
+    o = getattr(v, "origin", None)
+    if not o or depth == 0:
+        return tagof(v)
+    parts = []
+    for x in o:
+        if isinstance(x, (list, tuple)):
+            parts.append("(" + ",".join(_odigest(y, depth - 1) if isinstance(y, Val) else str(y) for y in x) + ")")
+        elif isinstance(x, dict):
+            parts.append("{" + ",".join(f"{k}:{_odigest(y, depth - 1) if isinstance(y, Val) else y}" for k, y in x.items()) + "}")
+        elif isinstance(x, Val):
+            parts.append(_odigest(x, depth - 1))
+        else:
+            parts.append(str(getattr(x, "name", x))[:40] if not isinstance(x, ast.AST) else "")
+    return ";".join(parts)
+
+
+def dkey(v):
+    """the key a value has in an abstract dict: the constant itself, else the value's tag — for results of calls / methods /
+    operators (whose tags name the call site only) extended by a digest of the operands"""
+    if isinstance(v, Const):
+        return v.v
+    t = tagof(v)
+    if isinstance(v, Sym) and v.origin and v.origin[0] in ("call", "method", "binop"):
+        import hashlib
+        return t + "#" + hashlib.sha1(_odigest(v).encode()).hexdigest()[:6]
+    return t
+
+
 class Interp:
     MAX_DEPTH = 12
 
@@ -371,7 +402,7 @@ class Interp:
                     d.items.update(inner.items)
                 continue
             kv = self.ev(k, env)
-            key = kv.v if isinstance(kv, Const) else tagof(kv)
+            key = dkey(kv)
             d.items[key] = self.ev(v, env)
             if not isinstance(kv, Const):
                 d.keyvals[key] = kv
@@ -560,10 +591,11 @@ class Interp:
                         res = True
                         break
             elif isinstance(r, Dct):
-                key_ = l.v if isinstance(l, Const) else tagof(l)
+                key_ = dkey(l)
                 res = key_ in r.items
-                if not res and getattr(r, "shared_name", None):
-                    # a module-level dict that code writes to: an earlier call may have stored this key
+                if not res and getattr(r, "shared_name", None) and getattr(self.hooks, "earlier_calls_filled_caches", False):
+                    # a module-level dict that code writes to: an earlier call may have stored this key (a rule that reasons about
+                    # histories asks for this; by default a run starts with the caches as the module defines them)
                     res = self.decide(f"{tagof(l)} in {r.shared_name}")
             elif isinstance(l, Const) and isinstance(r, Const) and isinstance(r.v, str) and isinstance(l.v, str):
                 res = l.v in r.v
@@ -682,8 +714,8 @@ class Interp:
                 return v.items[idx.v]
         if isinstance(v, Dct) and isinstance(idx, Const) and idx.v in v.items:
             return v.items[idx.v]
-        if isinstance(v, Dct) and not isinstance(idx, Const) and tagof(idx) in v.items:
-            return v.items[tagof(idx)]
+        if isinstance(v, Dct) and not isinstance(idx, Const) and dkey(idx) in v.items:
+            return v.items[dkey(idx)]
         if isinstance(v, ArgsView) and isinstance(idx, Const):
             return self.node_arg(v.node, idx.v)
         if isinstance(v, Seq):
@@ -739,7 +771,7 @@ class Interp:
                 if i == len(e.generators):
                     if kind == "dict":
                         k = self.ev(e.key, sub)
-                        dout[k.v if isinstance(k, Const) else tagof(k)] = self.ev(e.value, sub)
+                        dout[dkey(k)] = self.ev(e.value, sub)
                         if not isinstance(k, Const):
                             dkeys[tagof(k)] = k
                     else:
@@ -774,7 +806,7 @@ class Interp:
                 if all(self.truth(self.ev(c, sub)) for c in g.ifs):
                     if kind == "dict":
                         k = self.ev(e.key, sub)
-                        dout[k.v if isinstance(k, Const) else tagof(k)] = self.ev(e.value, sub)
+                        dout[dkey(k)] = self.ev(e.value, sub)
                         if not isinstance(k, Const):
                             dkeys[tagof(k)] = k
                     else:
@@ -1800,7 +1832,7 @@ class Interp:
                 return Const(None)
         if isinstance(recv, Dct):
             if name == "get":
-                k = a0.v if isinstance(a0, Const) else tagof(a0)
+                k = dkey(a0)
                 if k in recv.items:
                     return recv.items[k]
                 dg = getattr(self.hooks, "dict_get", None)
@@ -1822,7 +1854,7 @@ class Interp:
             if name in ("values",):
                 return Lst(list(recv.items.values()))
             if name == "pop":
-                k = a0.v if isinstance(a0, Const) else tagof(a0)
+                k = dkey(a0)
                 if k not in recv.items and len(args) < 2 and not getattr(recv, "shared_name", None):
                     exc = ExcV("builtins.KeyError", {}, [a0])
                     self.effect("raise", exc, site)
@@ -2246,7 +2278,7 @@ class Interp:
                             and -len(base.items) <= idx.v < len(base.items):
                         del base.items[idx.v]
                     elif isinstance(base, Dct):
-                        k = idx.v if isinstance(idx, Const) else tagof(idx)
+                        k = dkey(idx)
                         if k in base.items:
                             del base.items[k]
                             base.keyvals.pop(k, None)
@@ -2397,7 +2429,7 @@ class Interp:
                 self.effect("nodeset", base.node, idx.v, v, site or t)
                 return
             if isinstance(base, Dct):
-                base.items[idx.v if isinstance(idx, Const) else tagof(idx)] = v
+                base.items[dkey(idx)] = v
                 self.effect("dictset", base, idx, v, site or t)
                 return
             if isinstance(base, Lst) and not base.open and isinstance(idx, Const) and isinstance(idx.v, int) and -len(base.items) <= idx.v < len(base.items):
